@@ -63,5 +63,11 @@ def conv_container(beh, tid):
     return [{"t": tid * 2, "kind": "smpp", "steps": steps}, {"t": tid * 2 + 1, "kind": "smgp", "steps": steps}]
 
 
-CONVERTERS = {"packet": conv_packet, "frame": conv_frame, "session": conv_session, "builder": conv_builder,
+def conv_steps(beh, tid):
+    """logger / stringer: the steps go to the driver as they are"""
+    return [{"t": tid, "steps": beh["steps"]}]
+
+
+CONVERTERS = {"logger": conv_steps, "stringer": conv_steps,
+              "packet": conv_packet, "frame": conv_frame, "session": conv_session, "builder": conv_builder,
               "container": conv_container}
